@@ -160,6 +160,64 @@ def do_op(f, o):
     raise KeyError(k)
 
 
+class ShortRaw:
+    """a seekable raw stream that LEGALLY returns short reads (like an unbuffered socket file or a RawIOBase wrapper):
+    read(n) returns a non-empty prefix of what was asked, its length a function of the position"""
+
+    def __init__(self, raw, seed):
+        self._raw, self._seed, self._pos, self.closed = raw, seed, 0, False
+
+    def read(self, n=-1):
+        if n is None or n < 0:
+            n = len(self._raw) - self._pos
+        if self._pos >= len(self._raw) or n == 0:
+            return b""
+        k = sh.short_len(self._pos, n, self._seed)
+        out = self._raw[self._pos:self._pos + k]
+        self._pos += len(out)
+        return out
+
+    def seek(self, off, whence=0):
+        self._pos = off if whence == 0 else (self._pos + off if whence == 1 else len(self._raw) + off)
+        return self._pos
+
+    def tell(self):
+        return self._pos
+
+    def seekable(self):
+        return True
+
+    def readable(self):
+        return True
+
+    def close(self):
+        self.closed = True
+
+
+def open_pipe(raw, seed):
+    """an os.pipe fed by a thread in chunks (short reads decided by timing); not seekable"""
+    import threading
+    import time
+    r, w = os.pipe()
+
+    def feed():
+        p = 0
+        k = 0
+        try:
+            while p < len(raw):
+                n = [4993, 1, 700, 8192, 3000][(seed + k) % 5]
+                os.write(w, raw[p:p + n])
+                p += n
+                k += 1
+                time.sleep(0.001)
+        finally:
+            os.close(w)
+    t = threading.Thread(target=feed, daemon=True)
+    t.start()
+    fobj = os.fdopen(r, "rb", buffering=0)
+    return fobj, (lambda: (fobj.close(), t.join(5)))
+
+
 def open_target(case, mode, raw=None):
     """returns (file object for BinaryZlibFile, cleanup, getter of the written bytes)"""
     if case.get("via") == "path":
@@ -167,6 +225,11 @@ def open_target(case, mode, raw=None):
         os.write(fd, raw or b"")
         os.close(fd)
         return path, (lambda: os.unlink(path)), (lambda: open(path, "rb").read())
+    if case.get("via") == "shortraw":
+        return ShortRaw(raw or b"", case.get("short_seed", 0)), (lambda: None), None
+    if case.get("via") == "pipe":
+        fobj, cleanup = open_pipe(raw or b"", case.get("short_seed", 0))
+        return fobj, cleanup, None
     bio = io.BytesIO(raw or b"")
     return bio, (lambda: None), bio.getvalue
 
@@ -177,7 +240,8 @@ def run_read(case):
     jc._BUFFER_SIZE = bufsize
     del PROXY.epochs[:]
     del PROXY.odd_args[:]
-    script, outs, blocks = sh.script_of(raw, case["fmt"], bufsize)
+    script, outs, blocks = sh.script_of(raw, case["fmt"], bufsize,
+                                        case.get("short_seed", 0) if case.get("via") == "shortraw" else None)
     target, cleanup, _ = open_target(case, "rb", raw)
     res = []
     try:
@@ -208,6 +272,8 @@ def run_read(case):
     why = None
     if PROXY.odd_args:
         script_ok, why = False, PROXY.odd_args[0]
+    if case.get("via") == "pipe":
+        PROXY.epochs[:] = []   # block boundaries of a pipe are decided by timing: the oracle alone judges
     for ep in PROXY.epochs if script_ok else []:
         for i, (sin, nin, sout, nout, eof, nun) in enumerate(ep):
             if i >= len(script["lens"]):
